@@ -166,9 +166,9 @@ class Facts:
 
     def fn(self, relfile, suffix, crate=None):
         """the unique function in `relfile` whose def-path ends with `suffix`"""
+        from sa.tree import norm
         d = self.file(relfile, crate)
-        m = [f for f in d['fns'] if f['path'].endswith(suffix) and
-             (len(f['path']) == len(suffix) or f['path'][-len(suffix) - 1] == ':' or suffix.startswith('::'))]
+        m = [f for f in d['fns'] if norm(f['path']) == suffix or (f['path'].endswith('::' + suffix))]
         if len(m) != 1:
             raise FactsError('ANCHOR-LOST: expected exactly one function %s in %s, found %d' % (suffix, relfile, len(m)))
         f = m[0]
@@ -207,3 +207,27 @@ class Facts:
 
     def crates(self):
         return [d for d in sorted(os.listdir(self.dir)) if os.path.isdir(os.path.join(self.dir, d))]
+
+
+def ctor_sites(fx, crate, variant_suffix):
+    """[(file, fn def-path, line)] where the enum variant / struct whose path ends with `variant_suffix` is constructed
+    (tuple-constructor call, struct literal or unit path in expression position)"""
+    import os, json
+    from sa import tree as T
+    out = []
+    idx = json.load(open(os.path.join(fx.dir, crate, 'index.json')))
+    for relfile in idx['files']:
+        try:
+            d = fx.file(relfile, crate)
+        except FactsError:
+            continue
+        for f in d['fns']:
+            for n in T.walk(f['body']):
+                k = n.get('k')
+                if k == 'Call' and (n.get('fn') or '').endswith(variant_suffix) and n.get('dk', '').startswith('Ctor'):
+                    out.append((relfile, f['path'], n.get('l')))
+                elif k == 'Struct' and (n.get('d') or '').endswith(variant_suffix):
+                    out.append((relfile, f['path'], n.get('l')))
+                elif k == 'Path' and (n.get('d') or '').endswith(variant_suffix) and n.get('dk', '').startswith('Ctor'):
+                    out.append((relfile, f['path'], n.get('l')))
+    return out
